@@ -438,6 +438,10 @@ func c05Scenario(m *vk.M, idx int, quickDocs int) {
 	case x < 9:
 		apis = []c05API{c05Reader}
 	}
+	// every 8th scenario holds about half of its slice / map members by pointer (*[]T, *map[string]T): the
+	// library may refuse such members, so a valid document is judged "error or exact" there
+	loose := idx%8 == 5 && !cfg.AllStrings
+	cfg.PtrContainers = loose
 	shape := c05gen.RandShape(r, cfg)
 	cm := &c05Mon{m: m, idx: idx}
 	m.Count("shapes."+cfg.TagKey, 1)
@@ -464,16 +468,23 @@ func c05Scenario(m *vk.M, idx int, quickDocs int) {
 		// class 1: valid document
 		out, ds := c05Call(cm, api, shape, c.Doc, "class=valid")
 		note(out)
-		if c05Judge(cm, api, c, c.Doc, out, ds, "valid", nil) {
+		vclass := "valid"
+		vft := (*c05gen.Fault)(nil)
+		if loose {
+			vclass, vft = "free", &c05gen.Fault{Kind: "valid-doc", Desc: "valid document (pointer-held containers: acceptance not asserted)"}
+		}
+		if c05Judge(cm, api, c, c.Doc, out, ds, vclass, vft) {
 			return
 		}
-		var bad2 bool
-		if bad2, out = c05SecondUse(cm, api, c, out); bad2 {
-			return
+		if out.err == nil {
+			var bad2 bool
+			if bad2, out = c05SecondUse(cm, api, c, out); bad2 {
+				return
+			}
 		}
 		if withYAML {
 			y, dy := c05Call(cm, yapi, shape, c.Doc, "class=valid")
-			if c05Judge(cm, yapi, c, c.Doc, y, dy, "valid", nil) || c05Equiv(cm, c, c.Doc, out, y, ds, "valid document") {
+			if c05Judge(cm, yapi, c, c.Doc, y, dy, vclass, vft) || c05Equiv(cm, c, c.Doc, out, y, ds, "valid document") {
 				return
 			}
 		}
